@@ -14,8 +14,9 @@ import (
 )
 
 type VP8Frame struct {
-	Len  int    `json:"len"`
+	Len  int    `json:"len"` // 0 = an empty (or, with Nil, nil) buffer: no frame, no packets, no picture id consumed
 	Seed uint64 `json:"seed"`
+	Nil  bool   `json:"nil,omitempty"`
 }
 
 type VP8PayCase struct {
@@ -65,6 +66,18 @@ func checkC11Pay(r *run, c *VP8PayCase) (CaseInfo, error) {
 		ci.class("picture-id")
 	}
 	for fi, f := range c.Frames {
+		if f.Len == 0 {
+			var empty []byte
+			if !f.Nil {
+				empty = []byte{}
+			}
+			if out := p.Payload(c.MTU, empty); len(out) != 0 {
+				return ci, failf("frame %d: an empty buffer produced %d packets", fi, len(out))
+			}
+			ci.class("empty-call-interleaved")
+
+			continue // no frame was sent: the running picture id must not move
+		}
 		frame := expand(f.Seed, 0, f.Len)
 		orig := clone(frame)
 		pkts := p.Payload(c.MTU, frame)
@@ -222,8 +235,12 @@ func checkC11Desc(r *run, c *VP8DescCase) (CaseInfo, error) {
 
 func genVP8PayCase(t *rapid.T) *VP8PayCase {
 	c := &VP8PayCase{PictureID: genBool(t, "pid")}
-	if rapid.IntRange(0, 9).Draw(t, "ffbig") == 0 {
+	if ffm := rapid.IntRange(0, 19).Draw(t, "ffbig"); ffm <= 1 {
 		c.FastForward = rapid.SampledFrom([]int{32765, 32766, 32767, 32768, 32769}).Draw(t, "ff")
+	} else if ffm == 2 {
+		// any id: powers of two, byte boundaries of the 15-bit form, or uniform
+		c.FastForward = rapid.OneOf(rapid.SampledFrom([]int{254, 255, 256, 257, 511, 512, 1023, 1024, 4095, 4096, 8191, 8192, 16383, 16384, 16385, 32511, 32512}),
+			rapid.IntRange(130, 33100)).Draw(t, "ff")
 	} else {
 		c.FastForward = rapid.SampledFrom([]int{0, 0, 0, 1, 2, 125, 126, 127, 128, 129, 5}).Draw(t, "ff")
 	}
@@ -243,11 +260,17 @@ func genVP8PayCase(t *rapid.T) *VP8PayCase {
 		}
 		c.Frames = append(c.Frames, VP8Frame{Len: l, Seed: rapid.Uint64().Draw(t, "seed")})
 	}
+	if rapid.IntRange(0, 5).Draw(t, "emptycalls") == 0 {
+		at := rapid.IntRange(0, len(c.Frames)).Draw(t, "emptyat")
+		c.Frames = append(c.Frames[:at:at], append([]VP8Frame{{Len: 0, Nil: genBool(t, "emptynil")}}, c.Frames[at:]...)...)
+	}
 	if rapid.IntRange(0, 59).Draw(t, "jumbo") == 0 {
 		if c.MTU < 1000 {
 			c.MTU = uint16(rapid.SampledFrom([]int{1200, 9000, 65535}).Draw(t, "jumbomtu"))
 		}
-		c.Frames[rapid.IntRange(0, len(c.Frames)-1).Draw(t, "jumboframe")].Len = rapid.SampledFrom([]int{65530, 65532, 65534, 65535, 65536, 65537, 65540, 70000, 131072, 200000}).Draw(t, "jumbolen")
+		if jf := &c.Frames[rapid.IntRange(0, len(c.Frames)-1).Draw(t, "jumboframe")]; jf.Len > 0 {
+			jf.Len = rapid.SampledFrom([]int{65530, 65532, 65534, 65535, 65536, 65537, 65540, 70000, 131072, 200000}).Draw(t, "jumbolen")
+		}
 	}
 
 	return c
